@@ -7,53 +7,53 @@ open ImathVerif
 
 /-- extracted from the C++ template at T = Sym; 1 path(s) -/
 def Sphere3.circumscribe {α : Type} [Add α] [Sub α] [Mul α] [Div α] [Neg α] [LT α] [LE α] [DecidableLT α] [DecidableLE α] [DecidableEq α] [OfNat α 0] [OfNat α 1] [OfNat α 2] (tmin : α) (tmax : α) (sqrt : α → α) (b : Box3 α) : (Sphere3 α) :=
-  let t859 := (((1 : α) / (2 : α)) * (b.min.z + b.max.z))
-  let t860 := (((1 : α) / (2 : α)) * (b.min.y + b.max.y))
-  let t861 := (((1 : α) / (2 : α)) * (b.min.x + b.max.x))
-  ⟨⟨t861, t860, t859⟩, (V3.length tmin tmax sqrt ⟨(b.max.x - t861), (b.max.y - t860), (b.max.z - t859)⟩)⟩
+  let t937 := (((1 : α) / (2 : α)) * (b.min.z + b.max.z))
+  let t938 := (((1 : α) / (2 : α)) * (b.min.y + b.max.y))
+  let t939 := (((1 : α) / (2 : α)) * (b.min.x + b.max.x))
+  ⟨⟨t939, t938, t937⟩, (V3.length tmin tmax sqrt ⟨(b.max.x - t939), (b.max.y - t938), (b.max.z - t937)⟩)⟩
 
 /-- extracted from the C++ template at T = Sym; 4 path(s) -/
 def Sphere3.intersectT {α : Type} [Add α] [Sub α] [Mul α] [Div α] [Neg α] [LT α] [DecidableLT α] [OfNat α 0] [OfNat α 1] [OfNat α 2] [OfNat α 4] (sqrt : α → α) (s : Sphere3 α) (l : Line3 α) : (Bool × α) :=
-  let t870 := (l.pos.z - s.center.z)
-  let t871 := (l.pos.y - s.center.y)
-  let t872 := (l.pos.x - s.center.x)
-  let t878 := ((2 : α) * (((l.dir.x * t872) + (l.dir.y * t871)) + (l.dir.z * t870)))
-  let t889 := ((t878 * t878) - ((4 : α) * ((((t872 * t872) + (t871 * t871)) + (t870 * t870)) - (s.radius * s.radius))))
-  let t890 := (sqrt t889)
-  let t891 := (-t878)
-  let t893 := ((t891 - t890) * ((1 : α) / (2 : α)))
-  let t895 := ((t891 + t890) * ((1 : α) / (2 : α)))
-  if t889 < (0 : α) then
+  let t948 := (l.pos.z - s.center.z)
+  let t949 := (l.pos.y - s.center.y)
+  let t950 := (l.pos.x - s.center.x)
+  let t956 := ((2 : α) * (((l.dir.x * t950) + (l.dir.y * t949)) + (l.dir.z * t948)))
+  let t967 := ((t956 * t956) - ((4 : α) * ((((t950 * t950) + (t949 * t949)) + (t948 * t948)) - (s.radius * s.radius))))
+  let t968 := (sqrt t967)
+  let t969 := (-t956)
+  let t971 := ((t969 - t968) * ((1 : α) / (2 : α)))
+  let t973 := ((t969 + t968) * ((1 : α) / (2 : α)))
+  if t967 < (0 : α) then
     (false, (0 : α))
   else
-    if t893 < (0 : α) then
-      if t895 < (0 : α) then
-        (false, t895)
+    if t971 < (0 : α) then
+      if t973 < (0 : α) then
+        (false, t973)
       else
-        (true, t895)
+        (true, t973)
     else
-      (true, t893)
+      (true, t971)
 
 /-- extracted from the C++ template at T = Sym; 4 path(s) -/
 def Sphere3.intersect {α : Type} [Add α] [Sub α] [Mul α] [Div α] [Neg α] [LT α] [DecidableLT α] [OfNat α 0] [OfNat α 1] [OfNat α 2] [OfNat α 4] (sqrt : α → α) (s : Sphere3 α) (l : Line3 α) : (Bool × (V3 α)) :=
-  let t870 := (l.pos.z - s.center.z)
-  let t871 := (l.pos.y - s.center.y)
-  let t872 := (l.pos.x - s.center.x)
-  let t878 := ((2 : α) * (((l.dir.x * t872) + (l.dir.y * t871)) + (l.dir.z * t870)))
-  let t889 := ((t878 * t878) - ((4 : α) * ((((t872 * t872) + (t871 * t871)) + (t870 * t870)) - (s.radius * s.radius))))
-  let t890 := (sqrt t889)
-  let t891 := (-t878)
-  let t893 := ((t891 - t890) * ((1 : α) / (2 : α)))
-  let t895 := ((t891 + t890) * ((1 : α) / (2 : α)))
-  if t889 < (0 : α) then
+  let t948 := (l.pos.z - s.center.z)
+  let t949 := (l.pos.y - s.center.y)
+  let t950 := (l.pos.x - s.center.x)
+  let t956 := ((2 : α) * (((l.dir.x * t950) + (l.dir.y * t949)) + (l.dir.z * t948)))
+  let t967 := ((t956 * t956) - ((4 : α) * ((((t950 * t950) + (t949 * t949)) + (t948 * t948)) - (s.radius * s.radius))))
+  let t968 := (sqrt t967)
+  let t969 := (-t956)
+  let t971 := ((t969 - t968) * ((1 : α) / (2 : α)))
+  let t973 := ((t969 + t968) * ((1 : α) / (2 : α)))
+  if t967 < (0 : α) then
     (false, ⟨(0 : α), (0 : α), (0 : α)⟩)
   else
-    if t893 < (0 : α) then
-      if t895 < (0 : α) then
+    if t971 < (0 : α) then
+      if t973 < (0 : α) then
         (false, ⟨(0 : α), (0 : α), (0 : α)⟩)
       else
-        (true, ⟨(l.pos.x + (l.dir.x * t895)), (l.pos.y + (l.dir.y * t895)), (l.pos.z + (l.dir.z * t895))⟩)
+        (true, ⟨(l.pos.x + (l.dir.x * t973)), (l.pos.y + (l.dir.y * t973)), (l.pos.z + (l.dir.z * t973))⟩)
     else
-      (true, ⟨(l.pos.x + (l.dir.x * t893)), (l.pos.y + (l.dir.y * t893)), (l.pos.z + (l.dir.z * t893))⟩)
+      (true, ⟨(l.pos.x + (l.dir.x * t971)), (l.pos.y + (l.dir.y * t971)), (l.pos.z + (l.dir.z * t971))⟩)
 
 end ImathVerif.Gen
